@@ -371,6 +371,21 @@ def check_C01(tier):
         h = fs.History(inst, [("kill", round(rng.uniform(0.05, 0.9), 3))], label="external kill #%d" % k); h.accept = False
         hs.append(h)
     R.histories(inst, hs)
+    # a command that APPENDS to its output: killed after a partial write, then the workflow is started again without any cleaning.
+    # Whatever reaches the final path must be the output of ONE successful command (the stale temp dir must not be built upon)
+    inst = FC(); inst["name"] = "FCAPP"; inst["ctl"] = {"a.append": "1", "a.sleep": "0.6"}
+    hs = []
+    for k, t in enumerate((0.3, 0.4)):
+        h = fs.History(inst, [("kill", t), ("run", None)], label="appending command killed after a partial write (%.1f s), run again without cleaning" % t); h.accept = False
+        hs.append(h)
+    R.histories(inst, hs)
+    # the standard command as a non-final member of an AND-list: its failure must still fail the task
+    andlist = [FA(), FB(2)]
+    for i in andlist:
+        i["name"] += "AND"
+        for pr in i["procs"]:
+            if pr["kind"] == "cmd": pr["suffix"] = "&& true"
+    run_fault_cases(R, andlist, ["exit_after_partial", "exit_after_all"] if not thorough else ALLFAULTS, chk)
     # ---- watched runs: a final path is polled from outside; whatever is seen there must be complete --------------
     def watched(label, inst, watch_rel, other_fs=None):
         d = scratch("watch"); od = None
@@ -489,6 +504,39 @@ def check_C09(tier):
             bad = [r for r in rr.cmdlog if r["tag"] == "S" and (r["key"] == "a:2_" or "v*x" in r["key"])]
             if bad: chk.violation("a command with an empty / invalid value was executed: %s" % bad, dict(instance=inst))
             chk.nontrivial.add("unformable:" + label)
+    # an invalid character in a DIRECTORY component of an output path (parameter value used as directory name)
+    inst = zoo.Z1(n=3); inst["name"] = "ZPD"; inst["feeds"] = [dict(to="a.p", values=["u", "0.1,0.2", "w"])]
+    for p in inst["procs"]:
+        if p["name"] == "a": p["outpaths"] = {"out": "o/res_{p:p}/a.out_{i:in|basename|%.txt}.txt"}
+    rr = fc.real_runs(inst, [dict(env={}, bufsize=2, timeout=30)])[0]
+    chk.evaluations += 1
+    ran = [r["key"] for r in rr.cmdlog if r["tag"] == "S"]
+    if rr.timeout or rr.deadlock:
+        chk.violation("workflow hangs when a task cannot be formed (invalid character in a directory component of the output path)", dict(instance=inst))
+    elif rr.rc == 0 or rr.completed:
+        chk.violation("an output path with an invalid character in a directory component (o/res_0.1,0.2/...) was accepted: exit status %s, completed=%s, executed %s"
+                      % (rr.rc, rr.completed, [k for k in ran if "," in k]), dict(instance=inst, stderr=rr.stderr[-500:]))
+    elif any("," in k for k in ran):
+        chk.violation("a command for the unformable task was executed: %s" % [k for k in ran if "," in k], dict(instance=inst))
+    else:
+        chk.nontrivial.add("unformable:invalid directory component")
+    # a task that does not produce its declared output, while ANOTHER task publishes a file at the very same path in the meantime
+    inst = dict(name="SHMISS", max=3, bufsize=2,
+                procs=[zoo.src("s", ["1"]),
+                       dict(name="fast", kind="cmd", ins=["in"], outs=["out"], outpaths={"out": "o/shared.txt"}, arg="sleep 0.2; cat {i:in} > {o:out}"),
+                       dict(name="slow", kind="cmd", ins=["in"], outs=["out"], outpaths={"out": "o/shared.txt"}, arg="sleep 1.0; cat {i:in} > /dev/null; true {o:out}"),
+                       dict(name="use", kind="cmd", ins=["x"], outs=["out"], outpaths={"out": "o/use.txt"}, arg="echo USED > {o:out}; cat {i:x} >> {o:out}")],
+                edges=[zoo.E("s.out", "fast.in"), zoo.E("s.out", "slow.in"), zoo.E("slow.out", "use.x")])
+    for rr in fc.real_runs(inst, [dict(env={}, bufsize=2, timeout=30), dict(env={"VERIF_JITTER": "7"}, bufsize=2, timeout=30)]):
+        chk.evaluations += 1
+        used = "o/use.txt" in rr.snapshot
+        if rr.timeout or rr.deadlock:
+            chk.undecided.append("shared-path / missing-output scenario hangs")
+        elif rr.rc == 0 or rr.completed or used:
+            chk.violation("a task that did not produce its declared output was accepted because another task had published a file at the same path: exit status %s, "
+                          "completed=%s, dependant executed=%s" % (rr.rc, rr.completed, used), dict(instance=inst, stderr=rr.stderr[-400:]))
+        else:
+            chk.nontrivial.add("missing-output:shared path")
     # two tasks fail at (almost) the same time while the error log cannot be written
     inst = FB(2); inst["faults"] = {"a:1": "exit_after_all_noisy", "a:2": "exit_after_all_noisy"}
     exp = fc.expected({k: v for k, v in inst.items() if k != "faults"})
